@@ -119,8 +119,9 @@ def run(ctx) -> None:
         ctx.ok("R10a", "cancel_commands: every request other than the source is cancelled")
     else:
         ctx.fail("R10a", cc, lp.ast, "cancel_commands: every request other than the source is cancelled", "a request can be skipped", p)
-    pass_fin = any(call_attr(c) == "_cancel_command" and (len(c.args) > 1 and norm(c.args[1]) == "finalize" or any(
-        k.arg == "finalize" and norm(k.value) == "finalize" for k in c.keywords)) for c in walk_no_nested(cc.node) if isinstance(c, ast.Call))
+    ccp = cc.node.args.args[2].arg if len(cc.node.args.args) > 2 else "finalize"      # cancel_commands' own finalize parameter
+    pass_fin = any(call_attr(c) == "_cancel_command" and (len(c.args) > 1 and norm(c.args[1]) == ccp or any(
+        k.arg is not None and norm(k.value) == ccp for k in c.keywords)) for c in walk_no_nested(cc.node) if isinstance(c, ast.Call))
     if pass_fin:
         ctx.ok("R10a", "cancel_commands forwards its finalize flag")
     else:
@@ -128,7 +129,8 @@ def run(ctx) -> None:
     cn = prog.func("openpectus.engine.command_manager:CommandManager._cancel_command")
     ctx.analysed(cn)
     g = cfg_of(cn)
-    tests = [n for n in g.nodes if n.kind == "test" and norm(n.ast) == "finalize"]
+    cnp = cn.node.args.args[2].arg if len(cn.node.args.args) > 2 else "finalize"
+    tests = [n for n in g.nodes if n.kind == "test" and norm(n.ast) == cnp]
     if tests and any(node_calls(n, "_finalize_command") and g.edge_dominates(tests[0].id, "T", n.id) for n in g.nodes):
         ctx.ok("R10a", "_cancel_command finalizes when asked to")
     else:
